@@ -240,6 +240,26 @@ pub enum Operation {
     Special(PathBuf, PathBuf),
 }
 
+// The identities of all regular files below `sources`, as the walk
+// will come across them (entries that cannot be read are left to the
+// walk itself to report).
+fn known_sources(sources: &[PathBuf], config: &Config, read: &mut HashMap<(u64, u64), PathBuf>) {
+    for source in sources {
+        let walk = WalkDir::new(source)
+            .follow_links(config.dereference)
+            .follow_root_links(config.dereference);
+        for entry in walk.into_iter().flatten() {
+            if let Ok(meta) = entry.metadata() {
+                if meta.is_file() {
+                    let path = entry.into_path();
+                    let from = if config.dereference { canonicalize(&path).unwrap_or(path) } else { path };
+                    read.entry((meta.dev(), meta.ino())).or_insert(from);
+                }
+            }
+        }
+    }
+}
+
 // Whether `path` is spelled `dir/.` (or is `.` itself), trailing
 // slashes aside: the contents of a directory rather than the
 // directory.
@@ -306,6 +326,11 @@ pub fn tree_walker(
             }
         }
     }
+
+    // (The ones further down in the trees are looked up in one go the
+    // first time a destination turns out to have another name.)
+    let all_sources = sources.clone();
+    let mut all_known = false;
 
     for source in sources {
         let sourcedir = source
@@ -459,6 +484,12 @@ pub fn tree_walker(
                         if let Ok(tmeta) = fs::metadata(&target) {
                             if tmeta.is_file() {
                                 // (Nor may it be another source of the run.)
+                                let aliased = tmeta.nlink() > 1
+                                    || target.symlink_metadata().is_ok_and(|m| m.file_type().is_symlink());
+                                if aliased && !all_known {
+                                    known_sources(&all_sources, config, &mut read);
+                                    all_known = true;
+                                }
                                 let other_source = read.get(&(tmeta.dev(), tmeta.ino())).is_some_and(|s| *s != from);
                                 if other_source {
                                     let msg = "Will not overwrite another source of this same copy.";
